@@ -546,19 +546,22 @@ Section NMSolve.
     (Z.to_nat (mi + 3) <= S f + ehlen N _ _ A s c)%nat ->
     snd (solve N inf _ _ A (S f) s c is dflt) = true.
   Proof.
-    refine (solve_terminates N inf _ _ A G_nm (fun i => ndeco N i = None) _ _ _ _ _ _).
+    intros f s c is dflt mi mf HG His Hd Hl Hmi Hfuel.
+    destruct (Z.eq_dec mi 0) as [E0|Hnz]; [subst mi; apply (solve_terminates_zero N inf _ _ A f s c is dflt mf Hl)|].
+    assert (Hpos : (0 < mi)%Z) by lia.
+    refine (solve_terminates N inf _ _ A G_nm (fun i => ndeco N i = None) _ _ _ _ _ _ f s c is dflt mi mf HG His Hd Hl Hpos Hfuel).
     - (* progress *)
-      intros s c i HG _. cbv zeta. cbn [a_nested a_step nm_algo].
-      destruct (nm_step_Q s c i HG) as [Hrec HG'].
-      destruct (run_prog_cfg N inf true _ (nm_step N inf s c i) s) as (_ & _ & Hs). cbv zeta in Hs.
+      intros s0 c0 i HG0 _ _. cbv zeta. cbn [a_nested a_step nm_algo].
+      destruct (nm_step_Q s0 c0 i HG0) as [Hrec HG'].
+      destruct (run_prog_cfg N inf true _ (nm_step N inf s0 c0 i) s0) as (_ & _ & Hs). cbv zeta in Hs.
       split; [|exact HG'].
       unfold ehlen, energy_history. cbn [stepmon set_stepmon a_ehist_extra nm_algo]. rewrite Hs.
       rewrite !app_nil_r, map_app, app_length, !map_length, Hrec. lia.
-    - intros s c. cbn [a_finalize nm_algo fst snd]. unfold ehlen, energy_history. cbn [stepmon set_stepmon].
-      rewrite (app_nil_r (stepmon N s)). apply Nat.le_refl.
-    - intros s c i. reflexivity.
-    - intros s c i HG Hi. cbn [a_decorate nm_algo]. unfold nm_decorate. rewrite Hi. exact HG.
-    - intros s c HG. exact HG.
-    - intros c. simpl. lia.
+    - intros s0 c0 _. cbn [a_finalize nm_algo fst snd]. unfold ehlen, energy_history. cbn [stepmon set_stepmon].
+      rewrite (app_nil_r (stepmon N s0)). apply Nat.le_refl.
+    - intros s0 c0 i. reflexivity.
+    - intros s0 c0 i HG0 Hi. cbn [a_decorate nm_algo]. unfold nm_decorate. rewrite Hi. exact HG0.
+    - intros s0 c0 HG0. exact HG0.
+    - intros c0 _. simpl. lia.
   Qed.
 End NMSolve.
